@@ -275,6 +275,14 @@ def handle (op : String) (f : List String) : Verdict :=
   | "havg", [ms, dumps0, _hseed, dumps1, res, itips, imat] =>
     let v := handleBase "avg" [ms, dumps1, res, itips, imat]
     { v with tags := "history" :: tagIf (dumps0 != dumps1) "history-changed" ++ v.tags }
+  | "avgids", [ms, dumps, idss, res, itips, imat] =>
+    -- the records of the channel carry arbitrary Ids: the model takes none (theorem avg_ignores_ids)
+    match parseIntList idss with
+    | none => bad "C14.avgids ids"
+    | some ids =>
+      let v := handleBase "avg" [ms, dumps, res, itips, imat]
+      let consecutive := ids == (List.range ids.length).map Int.ofNat
+      { v with tags := "ids-given" :: tagIf (!consecutive) "ids-not-0..n-1" ++ tagIf (ids.all (· == 0) && ids.length ≥ 2) "ids-all-zero" ++ v.tags }
   | _, _ => handleBase op f
 
 end Gotree.Driver.C14
